@@ -751,8 +751,12 @@ def run(chk):
         "FunctionalExtensionality.functional_extensionality_dep, Classical_Prop.classic",
         "np.nansum is modelled as a sum over the pixels whose diff is not NaN; the set of NaN pixels (ring model, r<1) is assumed locally constant "
         "(cases with a pixel within 1e-3 of the cut are skipped and counted)",
-        "the assembly of per-pixel rows into result[indices, 1:] / result[indices, 0] (sum exchange, division by n_cluster) and the affine dependence "
-        "of vect_to_params on the vector are covered by the numeric correspondence, not by a theorem; disc / inv_series have no dfun (has_jacobian False)",
+        "the assembly of per-pixel rows into result[indices, 1:] / result[indices, 0] (sum exchange, division by n_cluster), the affine dependence "
+        "of vect_to_params on the vector and the final composition are theorems (C15_gradient_exact, _gauss, _ring, C15_unpack_natural, "
+        "C15_jacobian_sum_exchange) about Model/Jacobian2.v; that model of the residual/jacobian closures is over R, hence not executed: its "
+        "agreement with get_residual is by reading plus the jacobian-vs-central-differences monitor; hypotheses of the theorem that the harness "
+        "relies on: clusters = groups[0] partition the rows, background mode in {const, global, cluster} (or a custom mode whose groups contain "
+        "the clusters), sizes/thickness non-zero, masked pixels at r2 > 0 for ring; disc / inv_series have no dfun (has_jacobian False)",
         "float rounding: gradient compared with central differences within 2e-6 relative + rounding floor; packing compared exactly (copies only)",
         "params with zero columns are outside the domain (Python asserts on min(modes))",
     ]
